@@ -20,6 +20,7 @@ func main() {
 	tier := flag.String("tier", os.Getenv("VERIF_TIER"), "quick|thorough")
 	repo := flag.String("repo", envOr("VERIF_REPO", "/repo"), "repository directory")
 	verif := flag.String("verif", envOr("VERIF_DIR", ""), "verif directory (default: cwd)")
+	props := flag.String("props", "", "development aid: comma-separated property ids decided in one process on one load of the tree (quick tier only)")
 	only := flag.String("only", "", "print only obligations whose key contains this string (replay)")
 	list := flag.Bool("list", false, "print every obligation")
 	flag.Parse()
@@ -38,6 +39,9 @@ func main() {
 	chk.FixtureDir = filepath.Join(*verif, "checker", "fixture")
 	seed, _ := strconv.ParseInt(os.Getenv("VERIF_SEED"), 10, 64)
 	t0 := time.Now()
+	if *props != "" {
+		os.Exit(runMany(strings.Split(*props, ","), *repo, *verif, *tier, seed))
+	}
 	fn, ok := chk.Registry[*prop]
 	if !ok {
 		fmt.Fprintf(os.Stderr, "unknown property %q; have %v\n", *prop, chk.RegistryKeys())
@@ -121,4 +125,42 @@ func envOr(k, d string) string {
 		return v
 	}
 	return d
+}
+
+// runMany decides several properties on one load of the tree (development aid for the seeded / refactoring corpora:
+// the registered commands always run one property per process).
+func runMany(ids []string, repo, verif, tier string, seed int64) int {
+	known, err := chk.LoadKnown(filepath.Join(verif, "known-findings.json"))
+	if err != nil {
+		fmt.Fprintf(os.Stderr, "INFRA: cannot read known-findings.json: %v\n", err)
+		return 2
+	}
+	ctx, lerr := chk.Load(repo, tier)
+	code := 0
+	for _, id := range ids {
+		fn, ok := chk.Registry[id]
+		if !ok {
+			fmt.Fprintf(os.Stderr, "unknown property %q\n", id)
+			return 2
+		}
+		t0 := time.Now()
+		rep := chk.NewReport(id)
+		func() {
+			defer func() {
+				if r := recover(); r != nil {
+					rep.Infra = append(rep.Infra, fmt.Sprintf("analyser panic: %v\n%s", r, debug.Stack()))
+				}
+			}()
+			if lerr != nil {
+				rep.Undecided("LOAD", "packages", "", lerr.Error())
+				return
+			}
+			fn(ctx, rep)
+		}()
+		out := chk.Finish(rep, ctx, verif, tier, seed, t0, known)
+		if out.ExitCode > code {
+			code = out.ExitCode
+		}
+	}
+	return code
 }
